@@ -329,6 +329,11 @@ func init() {
 			for j := 0; j <= jmax; j++ {
 				r = append(r, inst(p, "VerifC18ADTS", itoa(j)))
 			}
+			for _, ot := range []int{2, 5, 29} {
+				c := inst(mod+"/mp4", "VerifC18SampleEntry", itoa(ot))
+				c.MaxWallS = tierW(tier, 120, 600)
+				r = append(r, c)
+			}
 			// long junk up to the end of the 188-byte search window: no 0xff in it, or exactly one
 			for _, jq := range [][2]int{{60, 30}, {100, -1}, {186, 185}, {187, -1}, {187, 0}, {187, 186}} {
 				r = append(r, inst(p, "VerifC18ADTSLongJunk", itoa(jq[0]), itoa(jq[1])))
@@ -341,7 +346,7 @@ func init() {
 			return r
 		},
 		Bounds: func(tier string) map[string]interface{} { return map[string]interface{}{} },
-		Covers: []string{"asc roundtrip", "adts roundtrip"}, RequireCovers: true,
+		Covers: []string{"asc roundtrip", "adts roundtrip", "sample entry roundtrip"}, RequireCovers: true,
 	}
 	propDefs["C14"] = &PropDef{
 		ID:       "C14",
